@@ -123,6 +123,15 @@ func oneRound(p *pipeline.GleecePipeline, full bool) (r roundOut) {
 		for k := range inter.Imports {
 			sort.Strings(inter.Imports[k])
 		}
+		// Models.Aliases is assembled from a map walk and never sorted by gleece; its order is not part
+		// of any artifact (components are rendered key-sorted), so it is canonicalised here
+		sort.SliceStable(inter.Models.Aliases, func(i, j int) bool {
+			a, b := inter.Models.Aliases[i], inter.Models.Aliases[j]
+			if a.Name != b.Name {
+				return a.Name < b.Name
+			}
+			return a.PkgPath < b.PkgPath
+		})
 		b, _ := json.Marshal(inter)
 		h := sha256.Sum256(b)
 		r.MetaHash = hex.EncodeToString(h[:8])
